@@ -51,6 +51,9 @@ type Opts struct {
 	ShardDepth int
 	Prune      bool // state-key pruning (happens-before hashes)
 	Recheck    int  // re-execute each violating schedule this many times, require identical outcome
+	// OnlyDefault runs just the default schedule (no alternatives): for deep scenarios whose
+	// shape is fixed by virtual time rather than by preemptions. Not reported as a cap.
+	OnlyDefault bool
 }
 
 // Finding is a violation with the schedule that produced it.
@@ -216,6 +219,9 @@ func (x *explorer) explore(prefix, expN []uint8, level int) {
 				x.record(v, res, out, traceOf(inst))
 			}
 		}
+	}
+	if x.o.OnlyDefault {
+		return
 	}
 	pre := 0
 	for i, p := range res.Points {
